@@ -171,3 +171,22 @@ Proof. exact @slice_hash_length. Qed.
 Theorem C13_noprefix_refuted : forall T (h : hasht T) (a : garr T),
   ga_hash_noprefix h a <> slice_hash h (storage a).
 Proof. exact @noprefix_refuted. Qed.
+
+(* ---- tie to the current source (tools/ga2coq, coq/gen/GenDeleg.v): the bodies of the trait
+        impls as they stand in the source now are the delegations the model implements ---- *)
+From Coq Require Import String.
+From GA Require Import Deleg DelegTie.
+From GAGen Require Import GenDeleg.
+Local Open Scope string_scope.
+Theorem C13_source_delegations :
+  lookup "PartialEq::eq" gen_delegations = Some (DBinOp "==" (VDeref "self") (VDeref "other")) /\
+  lookup "PartialOrd::partial_cmp" gen_delegations =
+    Some (DCall "PartialOrd::partial_cmp" [VAsSlice "self"; VAsSlice "other"]) /\
+  lookup "Ord::cmp" gen_delegations = Some (DCall "Ord::cmp" [VAsSlice "self"; VAsSlice "other"]) /\
+  lookup "Hash::hash" gen_delegations = Some (DCall "Hash::hash" [VAsSlice "self"; VArg "state"]) /\
+  lookup "Debug::fmt" gen_delegations = Some (DMethod (VAsSlice "self") "fmt" [VArg "fmt"]) /\
+  lookup "Borrow<[T]>::borrow" gen_delegations = Some (DView (VAsSlice "self")) /\
+  lookup "BorrowMut<[T]>::borrow_mut" gen_delegations = Some (DView (VAsMutSlice "self")) /\
+  lookup "AsRef<[T]>::as_ref" gen_delegations = Some (DView (VAsSlice "self")) /\
+  lookup "AsMut<[T]>::as_mut" gen_delegations = Some (DView (VAsMutSlice "self")).
+Proof. rewrite !tie_deleg_of. repeat split. Qed.
